@@ -124,18 +124,21 @@ def gen(rng, tier, index):
                         g["clear"] = 1
                     op["gap"] = g
             ops.append(op)
-    return {"engine": ENGINE, "config": {"dut": dut}, "ops": ops[:n]}
+    # starting state of the LFSR (constructor parameter; also the state a COM restarts it from): the link's 0xFFFF mostly,
+    # else the Scrambler class default or an arbitrary state
+    iv = rng.choice([0xFFFF, 0xFFFF, 0xFFFF, 0x7DBD, rng.getrandbits(16) or 1])
+    return {"engine": ENGINE, "config": {"dut": dut, "iv": iv}, "ops": ops[:n]}
 
 
-def _bench(kind):
+def _bench(kind, iv=0xFFFF):
     def factory():
         from amaranth import Module, Elaboratable
         from luna.gateware.usb.usb3.physical.scrambling import Scrambler, Descrambler
         if kind == "chain":
             class Chain(Elaboratable):
                 def __init__(self):
-                    self.scr = Scrambler(initial_value=0xffff)
-                    self.des = Descrambler()
+                    self.scr = Scrambler(initial_value=iv)
+                    self.des = Descrambler(initial_value=iv)
 
                 def elaborate(self, platform):
                     m = Module()
@@ -152,7 +155,7 @@ def _bench(kind):
             ins = {"en2": last.enable, "clear2": last.clear}
             outs = {"m_valid": first.source.valid, "m_data": first.source.data, "m_ctrl": first.source.ctrl}
         else:
-            dut = Scrambler(initial_value=0xffff) if kind == "scrambler" else Descrambler()
+            dut = Scrambler(initial_value=iv) if kind == "scrambler" else Descrambler(initial_value=iv)
             first = last = dut
             ins, outs = {}, {}
         ins.update({"data": first.sink.data, "ctrl": first.sink.ctrl, "valid": first.sink.valid, "en": first.enable,
@@ -160,7 +163,7 @@ def _bench(kind):
         outs.update({"s_ready": first.sink.ready, "o_valid": last.source.valid, "o_data": last.source.data,
                      "o_ctrl": last.source.ctrl})
         return make_bench(dut, clocks={"ss": 1 / 125e6}, main="ss", ins=ins, outs=outs)
-    return cached_bench(("c31", kind), factory)
+    return cached_bench(("c31", kind, iv), factory)
 
 
 def _datamask(ctrl):
@@ -180,9 +183,9 @@ def _adv(state):
 class _Policy:
     """ one deterministic reference: adv_when_disabled in {True, False} """
 
-    def __init__(self, adv_when_disabled):
+    def __init__(self, adv_when_disabled, seed):
         self.adv_dis = adv_when_disabled
-        self.state = usb3.LFSR_SEED
+        self.state = seed
         self.alive = True
 
 
@@ -196,7 +199,8 @@ class _Actor:
         self.dead = False
         self.finished = False
         self.tail = 0
-        self.policies = [_Policy(True), _Policy(False)]
+        self.seed = scn["config"].get("iv", usb3.LFSR_SEED)
+        self.policies = [_Policy(True, self.seed), _Policy(False, self.seed)]
         self.prev_com = False            # previous transferred, non-held word had COM in symbol 0
         self.since = {"stall": 0, "gap": 0, "hold": 0}    # events since the last checked transfer
         self.queue = []                  # chain: words that must come out of the descrambler
@@ -270,7 +274,7 @@ class _Actor:
             # ---- classify ----------------------------------------------------------------------------------
             p = next(q for q in self.policies if q.alive)
             ctx = dict(stalled=self.stalled > 0, com_word=is_com)
-            _, seed_key = _adv(usb3.LFSR_SEED)
+            _, seed_key = _adv(self.seed)
             exp_key = _adv(p.state)[1]
             info = (f"in {d:#010x}/{c:#x} out {out_d:#010x}: key used {diff:#010x} (data lanes), expected {exp_key & mask:#010x}; "
                     f"stalled {self.stalled} cycles, {self.since} since the previous word")
@@ -300,7 +304,7 @@ class _Actor:
             if not p.alive:
                 continue
             if is_com:
-                p.state = usb3.LFSR_SEED
+                p.state = self.seed
             elif en or p.adv_dis:
                 p.state = _adv(p.state)[0]
         # ---- probes ------------------------------------------------------------------------------------------
@@ -347,7 +351,7 @@ class _Actor:
             if g.get("clear") and self.gap_left == 1:
                 pr["clear_pulses"] += 1
                 for p in self.policies:
-                    p.state = usb3.LFSR_SEED
+                    p.state = self.seed
                 self.prev_com = False
             self.since["gap"] += 1
             self.gap_left -= 1
@@ -385,7 +389,7 @@ class _Actor:
 
 def run(scn):
     kind = scn["config"]["dut"]
-    bench = _bench(kind)
+    bench = _bench(kind, scn["config"].get("iv", 0xFFFF))
     viol = Violations()
     probes = {p: 0 for p in PROBES}
     actor = _Actor(scn, viol, probes)
